@@ -35,7 +35,9 @@ type BDD struct {
 
 type BudgetExceeded struct{ Nodes int }
 
-func (b BudgetExceeded) Error() string { return fmt.Sprintf("BDD node budget exceeded (%d nodes)", b.Nodes) }
+func (b BudgetExceeded) Error() string {
+	return fmt.Sprintf("BDD node budget exceeded (%d nodes)", b.Nodes)
+}
 
 func NewBDD() *BDD {
 	m := &BDD{unique: map[bddNode]Node{}, cache: map[iteKey]Node{}, Budget: 4_000_000}
@@ -50,7 +52,7 @@ func (m *BDD) NewVar(name string) Node {
 	return m.mk(v, False, True)
 }
 
-func (m *BDD) NumVars() int        { return len(m.varName) }
+func (m *BDD) NumVars() int         { return len(m.varName) }
 func (m *BDD) VarName(i int) string { return m.varName[i] }
 func (m *BDD) Size() int            { return len(m.nodes) }
 
